@@ -198,6 +198,45 @@ func runC19(c *Ctx) {
 			rcone(a, b, r1, r2, p)
 			lip(f, p, q)
 		}
+		// VarryingThicknessLine: 0..5 line points (fewer than two: panic), repeated points, nested radii
+		{
+			k := c.Rng.Intn(6)
+			switch c.Rng.Intn(8) {
+			case 0:
+				k = c.Rng.Intn(2) // panics
+			case 1:
+				k = 2
+			}
+			pts := make([]sdf.LinePoint, k)
+			args := ""
+			cur := ctr
+			for i := range pts {
+				if i > 0 && c.Rng.Intn(6) != 0 { // 1 in 6: repeated point
+					cur = cur.Add(c.pt(2))
+				}
+				r := c.pos() * 0.5
+				if c.Rng.Intn(8) == 0 {
+					r = c.pos() * 3 // swallows its neighbours
+				}
+				pts[i] = sdf.LinePoint{Point: cur, Radius: r}
+				args += " " + vF(cur) + " " + F(r)
+			}
+			p, q := c.around(ctr, 4), c.around(ctr, 4)
+			if k > 0 && c.Rng.Intn(3) == 0 {
+				p = c.around(pts[c.Rng.Intn(k)].Point, 1)
+			}
+			head := itoa(k) + args
+			var f sample.Vec3ToFloat
+			res := Guard(func() string { f = sdf.VarryingThicknessLine(pts); return F(f(p)) })
+			c.Emit("c19.varline", head+" "+vF(p), res)
+			if res != "panic" {
+				c.Emit("c19.holds.varline_sign", head+" "+vF(p)+" "+F(f(p)), "true")
+				lip(f, p, q)
+				c.Note("varline.k" + itoa(k))
+			} else {
+				c.Note("varline.panic")
+			}
+		}
 		// rounded cylinder
 		{
 			ra := c.pos()
